@@ -331,9 +331,99 @@ def config_matrix(_):
   return n, bad[:3]
 
 
+def crash_points(_):
+  """Connection set-up that fails half way: Twisted logs an exception raised by connectionMade() and keeps the accepted
+  connection reading.  For every line of the connectionMade() methods (carbon/protocols.py) an exception is injected
+  right before that line runs; hostile frames sent on that connection afterwards must still reach no global."""
+  settings = env.boot()
+  env.reset_state()
+  install_hook()
+  import carbon.protocols as P
+  from twisted.internet.testing import StringTransport
+  from .. import canary
+  settings['USE_INSECURE_UNPICKLER'] = False
+  src = P.__file__
+
+  class Injected(Exception):
+    pass
+
+  def connect(cls, crash_at):
+    """makeConnection under a tracer; returns (protocol, transport, number of connectionMade line events seen)."""
+    seen = [0]
+
+    def local(frame, event, arg):
+      if event == 'line':
+        seen[0] += 1
+        if seen[0] == crash_at:
+          raise Injected('injected before %s:%d' % (frame.f_code.co_name, frame.f_lineno))
+      return local
+
+    def glob(frame, event, arg):
+      if event == 'call' and frame.f_code.co_filename == src and frame.f_code.co_name == 'connectionMade':
+        return local
+      return None
+    proto = cls()
+    tr = StringTransport()
+    sys.settrace(glob)
+    try:
+      try:
+        proto.makeConnection(tr)
+      except Injected:
+        pass
+    finally:
+      sys.settrace(None)
+    return proto, tr, seen[0]
+
+  hostile = []
+  for rname, body in sorted(pk.call_routes('mc.canary', 'fire', 'Cls', 'OldStyle', {}).items()):
+    if not rname.startswith('EXT'):
+      hostile.append(('call:%s' % rname, pk.prog(body, 2)))
+  hostile.append(('lookup:GLOBAL os.system', pk.prog(pk.g_global('os', 'system'), 2)))
+  hostile.append(('lookup:STACK_GLOBAL in metric slot', pk.prog(nestings(pk.g_stack_global('subprocess', 'Popen'), 1)['metric@1'], 4)))
+  bad = []
+  n = 0
+  points = 0
+  for cls in (P.MetricPickleReceiver, P.CacheManagementHandler):
+    _, _, total = connect(cls, 0)
+    if total < 2:
+      raise core.HarnessError('C13: connectionMade of %s was not traced' % cls.__name__)
+    for k in range(1, total + 1):
+      points += 1
+      for what, payload in hostile:
+        proto, tr, _ = connect(cls, k)
+        del canary.FIRED[:]
+        AUDIT['find_class'] = []
+        AUDIT['imports'] = []
+        AUDIT['on'] = True
+        try:
+          try:
+            proto.dataReceived(pk.frame(payload))
+          except BaseException:   # noqa - escaping exceptions are C11's business
+            pass
+        finally:
+          AUDIT['on'] = False
+        n += 1
+        v = None
+        if canary.FIRED:
+          v = 'canary invoked: %r' % (canary.FIRED[:2],)
+        else:
+          for mod, name in AUDIT['find_class']:
+            if (mod, name) not in ALLOW:
+              v = 'the stock find_class looked up %s.%s' % (mod, name)
+        if v and len(bad) < 3:
+          bad.append(('connection-setup-fault', '%s.connectionMade() failed before its line event %d (Twisted keeps such a connection '
+                      'open); a hostile frame (%s) on that connection: %s' % (cls.__name__, k, what, v),
+                      {'crash_point': k, 'protocol': cls.__name__, 'payload_hex': payload.hex(), 'what': what}))
+  return n, points, bad
+
+
 def run(ctx):
   load_daemon_modules()
   install_hook()
+  kn, kpoints, kbad = core.pmap(crash_points, [0], fresh=True)[0]
+  for key, what, rep in kbad:
+    ctx.violation(key, what, rep)
+  ctx.add(connection_setup_crash_points=kpoints, connection_setup_cases=kn)
   cn, cbad = core.pmap(config_matrix, [0], fresh=True)[0]
   for key, what, rep in cbad:
     ctx.violation(key, what, rep)
@@ -390,6 +480,14 @@ def replay(path):
     for key, what, _ in bad:
       print('oracle: [%s] %s' % (key, what))
     return 1 if bad else 0
+  if 'crash_point' in rep:
+    n, points, bad = crash_points(0)
+    hit = [b for b in bad if b[2]['crash_point'] == rep['crash_point'] and b[2]['protocol'] == rep['protocol']] or bad
+    for key, what, _ in hit[:1]:
+      print('oracle: [%s] %s' % (key, what))
+    if not hit:
+      print('oracle: holds (%d crash points x hostile frames)' % points)
+    return 1 if hit else 0
   p = Probe()
   payload = bytes.fromhex(rep['payload_hex'])
   v = p.check(payload, [tuple(r) for r in rep['refs']], rep['what'])
